@@ -48,7 +48,7 @@ pub fn nt_pairs(thorough: bool) -> Vec<(u16, u16)> {
 /// shapes with more than eight signers (multiscalar and map code is sometimes specialised by
 /// size): (n, t) pairs used with the full signer set and one t-subset
 pub fn large_pairs(thorough: bool) -> Vec<(u16, u16)> {
-    if thorough { vec![(9, 9), (9, 5), (12, 9), (17, 9)] } else { vec![(9, 5)] }
+    if thorough { vec![(9, 9), (9, 5), (12, 9), (17, 9), (33, 2), (40, 33), (65, 3)] } else { vec![(9, 5), (34, 2)] }
 }
 
 pub fn id_sets(n: u16, thorough: bool, seed: u64) -> Vec<IdSet> {
